@@ -700,11 +700,11 @@ MUTANTS = [
      "old": "        if self._processor_d:\n            self._processor_d.addCallback(_commit_and_stop)\n        else:\n            # No need to wait for the processor, we can commit and stop now\n            _commit_and_stop(None)",
      "new": "        _commit_and_stop(None)", "expect": "C13.R5"},
     {"id": "shutdown-fire-before-stop", "file": "consumer.py",
-     "old": "            self._shutdown_d, d = None, self._shutdown_d\n            self.stop()\n            self._shuttingdown = False  # Shutdown complete\n            d.callback(self._last_processed_offset)",
-     "new": "            self._shutdown_d, d = None, self._shutdown_d\n            d.callback(self._last_processed_offset)\n            self.stop()\n            self._shuttingdown = False  # Shutdown complete",
+     "old": "            if not self._stopping:  # stop() itself may have cancelled the processor\n                self.stop()\n            self._shuttingdown = False  # Shutdown complete\n            d.callback(self._last_processed_offset)",
+     "new": "            d.callback(self._last_processed_offset)\n            if not self._stopping:  # stop() itself may have cancelled the processor\n                self.stop()\n            self._shuttingdown = False  # Shutdown complete",
      "expect": "C13.R5"},
     {"id": "shutdown-in-progress-skips-final-commit", "file": "consumer.py",
-     "old": "                failure.value.deferred.addCallback(_commit_and_stop)", "new": "                failure.value.deferred.addCallback(_handle_shutdown_commit_success)",
+     "old": "                failure.value.deferred.addBoth(_commit_and_stop)", "new": "                failure.value.deferred.addBoth(_handle_shutdown_commit_success)",
      "expect": "C13.R5", "note": "seeded C13-1"},
     {"id": "fired-commit-timer-not-cleared", "file": "consumer.py",
      "old": "        if self._commit_call and not self._commit_call.active():\n            self._commit_call = None\n", "new": "", "expect": "C13.R7",
